@@ -132,8 +132,16 @@ HostApply(rec, h) == /\ (IF h.y.c.out # "ok" \/ h.ret = rec.ret THEN TRUE ELSE (
 THost == /\ vPh = "idle" /\ IsEv("Host")
          /\ HostApply(Rec, HostCall([vY EXCEPT !.ev = <<>>, !.xa = <<>>, !.c.acc = <<>>], Rec.op, Rec.a, Rec.b))
          /\ vPh' = "host" /\ UNCHANGED <<vL, vK>>
+\* an out-of-range outcome the specification predicted (a listed finding): which of its two sources it came from -- a
+\* vetoed access of the core (fetch / data access, left in the access list of the failing cycle: position, address, program
+\* page) or a DSP-side DMA cursor (System!EnvEvent, no access of the core); printed for the check's finding signatures
+OobCause ==
+    LET bad == {i \in 1 .. Len(vY.c.acc) : vY.c.acc[i][1] >= 262144 /\ vY.c.acc[i][1] < MmioBase} IN
+    IF bad = {} THEN <<"OOB_CAUSE", vL, "dma", 0, 0, 0>>
+    ELSE LET i == CHOOSE j \in bad : \A k \in bad : j <= k IN <<"OOB_CAUSE", vL, "core", i, vY.c.acc[i][1], vY.c.r.prpage>>
 TEnd   == /\ (vPh = "host" \/ (vPh = "run" /\ (vK = 0 \/ vY.c.out # "ok")))
           /\ (IF ObsMatches(Rec) THEN TRUE ELSE (PrintT(<<"MISMATCH", ObsDiff(Rec)>>) /\ FALSE))
+          /\ (vY.c.out = "oob" => PrintT(OobCause))
           /\ vL' = vL + 1 /\ TLCSet(1, vL) /\ vPh' = "idle" /\ UNCHANGED <<vY, vK, vWr>>
 
 TraceInit == /\ vL = 1 /\ vK = 0 /\ vPh = "idle" /\ vWr = {} /\ TLCSet(1, 0)
